@@ -43,6 +43,9 @@ structure Req where
 inductive Sel
   | nothing
   | reqs (rs : List Req)
+  /-- `labels.NewSelector()` / `labels.Parse("")`: the nil requirement slice — matches everything like `reqs []`, but
+  it is a different value for `reflect.DeepEqual` (a nil slice is not an empty slice) -/
+  | nilReqs
   deriving DecidableEq, Repr
 
 /-- `Requirement.Matches` -/
@@ -73,6 +76,7 @@ def Req.matches (r : Req) (ls : List (String × String)) : Bool :=
 def Sel.matches : Sel → List (String × String) → Bool
   | .nothing, _ => false
   | .reqs rs, ls => rs.all (·.matches ls)
+  | .nilReqs, _ => true
 
 inductive Filter
   | null
